@@ -26,13 +26,15 @@ def setNode (n : String) (newCap : Option R) (rollbackRestores : Bool := true) :
 
 /-- `AddNode`: ask the engine, create the plugin record, then the store record; a failing store
 write removes the plugin record again. `c`: the capacity the plugin derives from the request.
-A node the plugin already knows is refused by the plugin (nothing happens). -/
+A node the plugin already knows is refused by the plugin (nothing happens); a node the store
+already knows is refused by the store (and the fresh plugin record is removed again). -/
 def addNode (n : String) (c : R) : M R Unit := do
   readStep "engineInfo" n
   let s ← getSt
   txn (if s.pnodes.contains n then do readStep "pluginAddNode" n; refuse
        else step "pluginAddNode" n (pAddNode n c))
-      (step "storeAddNode" n (sAddNode n))
+      (if s.nodes.contains n then do readStep "storeAddNode" n; refuse   -- the store refuses an existing node
+       else step "storeAddNode" n (sAddNode n))
       (onThenFailure (step "pluginRemoveNode" n (pRmNode n)))
 
 /-- condition step of `RemoveNode`: mark the node down (result ignored), delete the store record,
